@@ -8,7 +8,7 @@ deviations of the code (E5 ack-before-registration, the single ping slot, E9,
 the A2 identifier wrap) are kept out of the `…_partial` statements by explicit
 hypotheses and proved as closed `…_counterexample`s on the model.
 -/
-import Mqtt.Proofs.Client
+import Mqtt.Proofs.ClientRefine
 
 set_option linter.unusedSimpArgs false
 
@@ -350,5 +350,168 @@ theorem C12_inflight_ids_nonzero_partial (evs : List Ev) (hok : IdOk init evs = 
   idsNonzero_run init evs idsNonzero_init hok k
 
 example : IdOk init demoC = true ∧ (queue .pub1 (runState init demoC)).map (·.id) = [3, 1] := by decide
+
+/-! ## (d) refinement: the code-shaped model against the reference client
+
+`Spec.Client.step` is the reference client written from MQTT 3.1.1 and the
+property texts.  `RunMatch sos mos`: event by event the model's outputs `mos`
+agree with the specification's `sos` after the canonical projection of the
+driver (`EvMatch`: packets written and completions in order, literally -
+except that a delivered message fixes callback, topic and payload only, and
+`completeAny` leaves the error value open -, message callbacks as a multiset).
+`Ok s evs` (decidable, evaluated along the *specification's* run) admits a
+history iff every event is inside the recorded exclusions:
+
+* no `.apiEarlyAck` (E5);
+* `Ping` only while no ping is outstanding (the single ping slot);
+* at every dispatch no callback is held under two different filters that both
+  match the delivered topic (`E9free`, E9);
+* filters and delivered topic names without empty and without `$`-led levels
+  (`good`, B3/B4), delivered names valid, QoS <= 2;
+* QoS 1/2 publishes, subscribes, unsubscribes carry a caller-supplied non-zero
+  identifier (the reference client cannot track library-assigned ones);
+* and the peer keeps to the protocol where the property is silent: SUBACK
+  return codes in {0, 1, 2, 0x80}, no PUBREC for an exchange whose PUBCOMP was
+  already processed, filters of one Subscribe valid and pairwise different
+  (see NOTES-bp4.md: outside these the two sides differ, counterexamples below). -/
+
+/-- **C12/C20, refinement (the part that holds).**  For every admitted history
+from a fresh client the model's outputs agree with the reference client's,
+event by event, and the two end in related states. -/
+theorem C12_refines_spec_partial (evs : List Ev) (hok : Ok {} evs = true) :
+    RunMatch (specOuts {} evs) (runOuts init evs) ∧
+    R (runState init evs) (evs.foldl (fun s ev => (Mqtt.Spec.Client.step s ev).1) {}) :=
+  run_sim evs init {} R_init hok
+
+/-- … and from every pair of related states (the relation is inductive). -/
+theorem C12_refines_spec_step (c : C) (s : Mqtt.Spec.Client.S) (hR : R c s) (ev : Ev) (hok : okStep s ev = true) :
+    R (step c ev).1 (Mqtt.Spec.Client.step s ev).1 ∧ EvMatch (Mqtt.Spec.Client.step s ev).2 (step c ev).2 :=
+  step_sim c s hR ev hok
+
+/-- the statement without the exclusions -/
+def C12_refines_spec_full : Prop := ∀ evs : List Ev, RunMatch (specOuts {} evs) (runOuts init evs)
+
+/-- non-vacuity: an admitted history exercising every kind of event - out-of-order PUBACKs, a QoS 2
+publish with PUBREC/PUBCOMP, subscribe with a refused filter, inbound QoS 0/1/2 with a duplicate,
+unsubscribe, ping -/
+def demoD : List Ev :=
+  [.connect (.connack true 0),
+   .api (.publish { qos := 1, topic := [97], pktid := 1, payload := [1] } 11),
+   .api (.publish { qos := 1, topic := [97, 47, 98], pktid := 2, payload := [2] } 12),
+   .api (.subscribe 3 [([97, 47, 43], 1), ([98], 2), ([99, 47, 35], 0)] 13 9),
+   .api (.publish { qos := 2, topic := [98], pktid := 4, payload := [7] } 14),
+   .api (.publish { qos := 0, topic := [98], payload := [8] } 15),
+   .peer (.puback 2),
+   .peer (.pubrec 4),
+   .peer (.puback 1),
+   .peer (.suback 3 [1, 2, 128]),
+   .peer (.publish { qos := 1, topic := [97, 47, 98], pktid := 100, payload := [1] }),
+   .peer (.publish { qos := 2, topic := [98], pktid := 101, payload := [2] }),
+   .peer (.publish { dup := true, qos := 2, topic := [98], pktid := 101, payload := [2] }),
+   .peer (.publish { qos := 0, topic := [99, 47, 100], payload := [3] }),
+   .peer (.pubrel 101),
+   .peer (.pubcomp 4),
+   .api (.unsubscribe 5 [[98], [98]] 16),
+   .api (.ping 17),
+   .peer (.unsuback 5),
+   .peer (.publish { qos := 0, topic := [98], payload := [4] }),
+   .peer .pingresp,
+   .peer .pingreq]
+
+example : Ok {} demoD = true := by decide
+
+example : (runOuts init demoD).drop 8 =
+    [[.complete 11 false, .complete 12 false],
+     [.complete 13 true],
+     [.wrote (.puback 100), .deliver 9 { qos := 1, topic := [97, 47, 98], pktid := 100, payload := [1] }],
+     [.wrote (.pubrec 101)], [.wrote (.pubrec 101)],
+     [],
+     [.deliver 9 { qos := 2, topic := [98], pktid := 101, payload := [2] }, .wrote (.pubcomp 101)],
+     [.complete 14 false],
+     [.wrote (.unsubscribe 5 [[98]])],
+     [.wrote .pingreq],
+     [.complete 16 false],
+     [],
+     [.complete 17 false],
+     [.wrote .pingresp]] := by decide
+
+example : RunMatch (specOuts {} demoD) (runOuts init demoD) := (C12_refines_spec_partial demoD (by decide)).1
+
+/-- E5 is needed: with the acknowledgement processed between write and registration the
+reference client completes the request, the model never does. -/
+theorem C12_refines_spec_E5_counterexample :
+    ¬ RunMatch (specOuts {} [.connect (.connack false 0),
+        .apiEarlyAck (.publish { qos := 1, topic := [97], pktid := 2, payload := [1] } 4) (.puback 2)])
+      (runOuts init [.connect (.connack false 0),
+        .apiEarlyAck (.publish { qos := 1, topic := [97], pktid := 2, payload := [1] } 4) (.puback 2)]) := by
+  intro h
+  exact absurd (runMatchB_of h) (by decide)
+
+/-- The ping hypothesis is needed: the reference client completes both pings in order, the model
+loses the first. -/
+theorem C12_refines_spec_ping_counterexample :
+    Ok {} [.connect (.connack false 0), .api (.ping 1)] = true ∧
+    ¬ RunMatch (specOuts {} [.connect (.connack false 0), .api (.ping 1), .api (.ping 2), .peer .pingresp, .peer .pingresp])
+      (runOuts init [.connect (.connack false 0), .api (.ping 1), .api (.ping 2), .peer .pingresp, .peer .pingresp]) := by
+  refine ⟨by decide, fun h => ?_⟩
+  exact absurd (runMatchB_of h) (by decide)
+
+/-- E9 is needed: a request with the overlapping filters `a/+`, `a/b`; one delivered `a/b` invokes
+the callback once in the reference client, twice in the model.  Everything before the delivery is
+admitted. -/
+theorem C12_refines_spec_E9_counterexample :
+    Ok {} [.connect (.connack false 0), .api (.subscribe 1 [([97, 47, 43], 1), ([97, 47, 98], 1)] 5 9),
+      .peer (.suback 1 [1, 1])] = true ∧
+    ¬ RunMatch (specOuts {} [.connect (.connack false 0), .api (.subscribe 1 [([97, 47, 43], 1), ([97, 47, 98], 1)] 5 9),
+        .peer (.suback 1 [1, 1]), .peer (.publish { qos := 0, topic := [97, 47, 98], payload := [7] })])
+      (runOuts init [.connect (.connack false 0), .api (.subscribe 1 [([97, 47, 43], 1), ([97, 47, 98], 1)] 5 9),
+        .peer (.suback 1 [1, 1]), .peer (.publish { qos := 0, topic := [97, 47, 98], payload := [7] })]) := by
+  refine ⟨by decide, fun h => ?_⟩
+  exact absurd (runMatchB_of h) (by decide)
+
+/-- B3 (`good`) is needed: the filter `/a` receives `x/a` in the model, not in the reference client. -/
+theorem C12_refines_spec_B3_counterexample :
+    ¬ RunMatch (specOuts {} [.connect (.connack false 0), .api (.subscribe 1 [([47, 97], 1)] 5 9),
+        .peer (.suback 1 [1]), .peer (.publish { qos := 0, topic := [120, 47, 97], payload := [1] })])
+      (runOuts init [.connect (.connack false 0), .api (.subscribe 1 [([47, 97], 1)] 5 9),
+        .peer (.suback 1 [1]), .peer (.publish { qos := 0, topic := [120, 47, 97], payload := [1] })]) := by
+  intro h
+  exact absurd (runMatchB_of h) (by decide)
+
+/-- A PUBREC arriving after the PUBCOMP of the same (still queued) exchange reverts the request to
+non-terminal in the model (Core C "state regression", modelled as the code has it); the reference
+client keeps it completed. -/
+theorem C12_refines_spec_late_pubrec_counterexample :
+    ¬ RunMatch (specOuts {} [.connect (.connack false 0),
+        .api (.publish { qos := 2, topic := [97], pktid := 1, payload := [] } 1),
+        .api (.publish { qos := 2, topic := [97], pktid := 2, payload := [] } 2),
+        .peer (.pubcomp 2), .peer (.pubrec 2), .peer (.pubcomp 1)])
+      (runOuts init [.connect (.connack false 0),
+        .api (.publish { qos := 2, topic := [97], pktid := 1, payload := [] } 1),
+        .api (.publish { qos := 2, topic := [97], pktid := 2, payload := [] } 2),
+        .peer (.pubcomp 2), .peer (.pubrec 2), .peer (.pubcomp 1)]) := by
+  intro h
+  exact absurd (runMatchB_of h) (by decide)
+
+/-- A SUBACK return code outside {0, 1, 2, 0x80} (here 3): the model reports an error to the
+completion and installs nothing, the reference client reports success and holds the filter. -/
+theorem C12_refines_spec_suback_code_counterexample :
+    ¬ RunMatch (specOuts {} [.connect (.connack false 0), .api (.subscribe 1 [([97], 1)] 5 9), .peer (.suback 1 [3])])
+      (runOuts init [.connect (.connack false 0), .api (.subscribe 1 [([97], 1)] 5 9), .peer (.suback 1 [3])]) := by
+  intro h
+  exact absurd (runMatchB_of h) (by decide)
+
+/-- A library-assigned identifier: the reference client registers such a request under 0 and never
+completes it, the model (and the code) complete it. -/
+theorem C12_refines_spec_auto_id_counterexample :
+    ¬ RunMatch (specOuts {} [.connect (.connack false 0),
+        .api (.publish { qos := 1, topic := [97], payload := [] } 1), .peer (.puback 1)])
+      (runOuts init [.connect (.connack false 0),
+        .api (.publish { qos := 1, topic := [97], payload := [] } 1), .peer (.puback 1)]) := by
+  intro h
+  exact absurd (runMatchB_of h) (by decide)
+
+theorem C12_refines_spec_full_counterexample : ¬ C12_refines_spec_full :=
+  fun h => C12_refines_spec_E5_counterexample (h _)
 
 end Mqtt.Properties.C12
